@@ -58,6 +58,11 @@ def check_slice(n, start, stop, step, obj=None):
             bad.append(('slice_gen_interleaved', 'two gen_indices(%d) consumed in step give %r expected %r' % (n, pairs, exp)))
         if cnt != len(exp):
             bad.append(('slice_count', 'count(%d)=%r expected %r' % (n, cnt, len(exp))))
+        mine = s.indices(n)
+        mine.reverse()
+        mine.append(-7)
+        if s.indices(n) != exp or list(s.gen_indices(n)) != exp:
+            bad.append(('slice_list_aliased', 'after the caller changed the list returned by indices(%d), indices() gives %r expected %r' % (n, s.indices(n), exp)))
         if exp:
             fst = s.first(n)
             if fst != exp[0]:
@@ -115,6 +120,14 @@ def check_sample(k, n, obj=None):
                 break
         if during != ind and not bad:
             bad.append(('sample_gen_interleaved', 'Sample(%d): gen_indices(%d) with indices() called in between gives %r, indices %r' % (k, n, during, ind)))
+        # the list handed out is the caller's: what the caller does to it must not show in later answers
+        mine = s.indices(n)
+        keep = list(mine)
+        mine.reverse()
+        mine.append(-7)
+        if s.indices(n) != keep or list(s.gen_indices(n)) != keep:
+            bad.append(('sample_list_aliased', 'Sample(%d): after the caller reversed and extended the list returned by indices(%d), indices() gives %r and '
+                        'gen_indices() %r; before: %r' % (k, n, s.indices(n), list(s.gen_indices(n)), keep)))
         if cnt != len(ind) or cnt != min(k, n):
             bad.append(('sample_count', 'count(%d)=%r, len(indices)=%d, min(k,n)=%d' % (n, cnt, len(ind), min(k, n))))
         if ind and s.first(n) != ind[0]:
